@@ -35,7 +35,7 @@ Proof.
     rewrite En. replace (Z.sgn v) with (-1) by lia.
     assert (Er : Z.rem (- q) 2 = - (q mod 2)).
     { rewrite Z.rem_opp_l by lia. rewrite Z.rem_mod_nonneg by lia. reflexivity. }
-    rewrite Er.
+    rewrite Er. clear Heqq Heqr En Er.
     destruct (2 * r <? 2 * h) eqn:C1; [|destruct (2 * h <? 2 * r) eqn:C2; [|destruct (q mod 2 =? 0) eqn:C3]];
       match goal with |- context [if ?c then 1 else _] => destruct c eqn:D1 end;
       try match goal with |- context [if ?c then -1 else 0] => destruct c eqn:D2 end; lia.
@@ -43,7 +43,7 @@ Proof.
     { rewrite Z.quot_div_nonneg by lia. rewrite Heqq. f_equal. lia. }
     rewrite En. replace (Z.sgn v) with 1 by lia.
     assert (Er : Z.rem q 2 = q mod 2) by (apply Z.rem_mod_nonneg; lia).
-    rewrite Er.
+    rewrite Er. clear Heqq Heqr En Er.
     destruct (2 * r <? 2 * h) eqn:C1; [|destruct (2 * h <? 2 * r) eqn:C2; [|destruct (q mod 2 =? 0) eqn:C3]];
       match goal with |- context [if ?c then 1 else _] => destruct c eqn:D1 end;
       try match goal with |- context [if ?c then -1 else 0] => destruct c eqn:D2 end; lia.
